@@ -1290,6 +1290,12 @@ func (cs *ConsensusState) enterPrecommit(height uint64, round uint32) {
 
 	// If +2/3 prevoted for proposal block, stage and precommit it
 	if cs.ProposalBlock.HashesTo(blockID.Hash) {
+		// Validate the block (as doPrevote does): never lock on or sign an invalid block.
+		if err := cs.blockExec.ValidateBlock(cs.state, cs.ProposalBlock); err != nil {
+			logger.Error("enterPrecommit: +2/3 prevoted for an invalid block. Precommitting nil", "err", err)
+			cs.signAddVote(kproto.PrecommitType, cmn.Hash{}, types.PartSetHeader{})
+			return
+		}
 		logger.Info("enterPrecommit: +2/3 prevoted proposal block. Locking", "hash", blockID)
 		cs.LockedRound = round
 		cs.LockedBlock = cs.ProposalBlock
